@@ -50,6 +50,7 @@ type Result struct {
 	Nontrivial   map[string]bool   `json:"nontrivial,omitempty"`
 	Cover        map[string]int    `json:"cover,omitempty"`
 	Offline      *oracle.Stats     `json:"offline,omitempty"`
+	Windows      *oracle.WindowStats `json:"windows,omitempty"`
 	Notes        []string          `json:"notes,omitempty"`
 	Fatal        []string          `json:"fatal,omitempty"`
 	WallMs       int64             `json:"wall_ms"`
@@ -301,6 +302,18 @@ func (x *Ctx) Finish() {
 	}
 	st := oracle.Offline(x.M, 20*time.Second)
 	x.Res.Offline = &st
+	ws := oracle.Windows(x.M)
+	if ws.C16Windows+ws.C17Windows > 0 {
+		x.Res.Windows = &ws
+		if ws.C16PrecondFail != "" {
+			x.Inconclusive("%s", ws.C16PrecondFail)
+		}
+		x.M.Lock()
+		x.M.Counts["c16.windows"] += ws.C16Windows
+		x.M.Counts["c17.windows"] += ws.C17Windows
+		x.M.Counts["c17.lapsed_reads_judged"] += ws.C17LapsedReads
+		x.M.Unlock()
+	}
 	if st.Porcupine == "unknown" {
 		x.Note("porcupine timed out on %d operations (oracle B inconclusive, oracle A decided)", st.PorcupineOps)
 	}
